@@ -1,1 +1,197 @@
-def main : IO Unit := IO.println "driver C15: not built yet"
+import VncModel.Basic.Proto
+import VncModel.Cursor.Session
+/-! Line-protocol driver for the cursor model (C15). Same script as harness/c15.c.
+Arguments: `orig-clip` / `orig-colour` select the model of the unrepaired code (see Model.lean). -/
+open VncModel VncModel.Cursor VncModel.Proto
+
+structure DState where
+  sess : Option Sess := none
+  used : List (Nat × ClientKind) := []     -- ids ever connected, ascending
+  fullreq : List Nat := []                  -- clients with a pending full-screen request
+  oob : Bool := false                       -- the model hit an out-of-bounds access
+
+def fnvBytes (h : UInt64) (bs : List UInt8) : UInt64 :=
+  bs.foldl (fun h b => (h ^^^ b.toUInt64) * 1099511628211) h
+
+def fnvInit : UInt64 := 1469598103934665603
+
+def hashPx (bpp : Nat) (a : Array Px) : UInt64 :=
+  a.foldl (fun h p => fnvBytes h (pxBytes bpp p)) fnvInit
+
+def hashRgn (r : Rgn) : UInt64 :=
+  r.bits.foldl (fun h b => (h ^^^ (if b then 1 else 0)) * 1099511628211) fnvInit
+
+def hex16 (h : UInt64) : String :=
+  String.ofList ((List.range 16).map fun k => hexChar ((h >>> (UInt64.ofNat (60 - 4 * k))).toNat % 16))
+
+def pixval (bpp x y seed : Nat) : Px :=
+  let x32 := UInt32.ofNat x
+  let y32 := UInt32.ofNat y
+  let s32 := UInt32.ofNat seed
+  let v := (x32 * 73 + y32 * 151 + s32 * 199 + x32 * y32 * 7) * 2654435761
+  let v := v ^^^ (v >>> 15)
+  v.toNat % 2 ^ (8 * bpp)
+
+def fmtOf (bpp : Nat) : Format :=
+  if bpp = 1 then ⟨7, 7, 3, 0, 3, 6⟩
+  else if bpp = 2 then ⟨31, 31, 31, 0, 5, 10⟩
+  else ⟨255, 255, 255, 0, 8, 16⟩
+
+def insertSorted (x : Nat × ClientKind) : List (Nat × ClientKind) → List (Nat × ClientKind)
+  | [] => [x]
+  | y :: ys => if x.1 ≤ y.1 then x :: y :: ys else y :: insertSorted x ys
+
+def bytesToPx (bpp : Nat) (bs : List UInt8) : Array Px :=
+  let rec go (bs : List UInt8) (fuel : Nat) (acc : Array Px) : Array Px :=
+    match fuel with
+    | 0 => acc
+    | fuel + 1 =>
+      if bs.isEmpty then acc
+      else
+        let chunk := bs.take bpp
+        let p := (chunk.zipIdx).foldl (fun a (b, k) => a + b.toNat * 2 ^ (8 * k)) 0
+        go (bs.drop bpp) fuel (acc.push p)
+  go bs (bs.length + 1) #[]
+
+def nat? (s : String) : Option Nat := s.toNat?
+
+def parseCursor (bpp : Nat) (toks : List String) : Option (Option Cursor) :=
+  match toks with
+  | ["cursor", "none"] => some none
+  | "cursor" :: kind :: w :: h :: xh :: yh :: rest =>
+    match nat? w, nat? h, nat? xh, nat? yh with
+    | some w, some h, some xh, some yh =>
+      if w < 1 || h < 1 || w > 64 || h > 64 then none else
+      let rb := rowBytes w
+      let cols (l : List String) : Option (List Nat) := l.mapM nat?
+      match kind, rest with
+      | "x", src :: mask :: colours =>
+        match unhex? src, unhex? mask, cols colours with
+        | some src, some mask, some [fr, fg, fb, br, bg, bb] =>
+          if src.length != rb * h || mask.length != rb * h then none else
+          some (some { w := w, h := h, xhot := xh, yhot := yh, mask := mask.toArray, source := some src.toArray,
+                       rich := none, alpha := none, premult := false,
+                       foreR := fr, foreG := fg, foreB := fb, backR := br, backG := bg, backB := bb })
+        | _, _, _ => none
+      | "xs", [src, mask] =>
+        match unhex? src, unhex? mask with
+        | some src, some mask =>
+          if src.length != rb * h || mask.length != rb * h then none else
+          (makeXCursor w h src.toArray (some mask.toArray)).map fun c => some { c with xhot := xh, yhot := yh }
+        | _, _ => none
+      | "xm", [src] =>
+        match unhex? src with
+        | some src =>
+          if src.length != rb * h then none else
+          (makeXCursor w h src.toArray none).map fun c => some { c with xhot := xh, yhot := yh }
+        | _ => none
+      | "rich", pix :: mask :: colours =>
+        match unhex? pix, unhex? mask, cols colours with
+        | some pix, some mask, some [fr, fg, fb, br, bg, bb] =>
+          if pix.length != w * h * bpp || mask.length != rb * h then none else
+          some (some { w := w, h := h, xhot := xh, yhot := yh, mask := mask.toArray, source := none,
+                       rich := some (bytesToPx bpp pix), alpha := none, premult := false,
+                       foreR := fr, foreG := fg, foreB := fb, backR := br, backG := bg, backB := bb })
+        | _, _, _ => none
+      | "alpha", [pix, al, pm] =>
+        match unhex? pix, unhex? al, nat? pm with
+        | some pix, some al, some pm =>
+          if pix.length != w * h * bpp || al.length != w * h then none else
+          (makeMaskFromAlpha w h al.toArray).map fun m =>
+            some { w := w, h := h, xhot := xh, yhot := yh, mask := m, source := none,
+                   rich := some (bytesToPx bpp pix), alpha := some al.toArray, premult := pm != 0,
+                   foreR := 0, foreG := 0, foreB := 0, backR := 0, backG := 0, backB := 0 }
+        | _, _, _ => none
+      | _, _ => none
+    | _, _, _, _ => none
+  | _ => none
+
+def be16At (bs : List UInt8) (k : Nat) : Nat := (bs.getD k 0).toNat * 256 + (bs.getD (k + 1) 0).toNat
+
+def fmtShape (m : List UInt8) : String :=
+  let enc := (m.getD 11 0).toNat
+  let tag := if enc == 0x10 then "X" else "R"
+  let payload := m.drop 12
+  s!"{tag}:{be16At m 0},{be16At m 2},{be16At m 4},{be16At m 6}:{hex payload}"
+
+def obsLine (bpp : Nat) (o : UpdObs) : String :=
+  let head := s!"c{o.id} n=1 res={if o.res then 1 else 0} before={hex16 (hashPx bpp o.before)} painted={hex16 (hashPx bpp o.painted)} after={hex16 (hashPx bpp o.after)} cur={o.curX},{o.curY} ucl={o.ucl}"
+  if !o.res then head ++ " closed" else
+  let sh := match o.shape with | some m => fmtShape m | none => "-"
+  let ps := match o.pos with | some m => s!"{be16At m 0},{be16At m 2}" | none => "-"
+  head ++ s!" shape={sh} pos={ps} cov={hex16 (hashRgn o.upd)} pic={hex16 (hashPx bpp o.pic)}"
+
+def alive (s : Sess) (id : Nat) : Bool := s.clients.any (fun c => c.id == id)
+
+def dstep (v : Variant) (st : DState) (toks : List String) : DState × List String :=
+  if st.oob then (st, ["model-oob"]) else
+  match st.sess, toks with
+  | none, ["screen", w, h, bpp] =>
+    match nat? w, nat? h, nat? bpp with
+    | some w, some h, some bpp =>
+      if w < 1 || h < 1 || w > 200 || h > 200 || (bpp != 1 && bpp != 2 && bpp != 4) then (st, ["bad-op"]) else
+      let fb := Array.ofFn (n := w * h) fun k => pixval bpp (k.val % w) (k.val / w) 0
+      let scr : Screen := { w := w, h := h, bpp := bpp, fmt := fmtOf bpp, fb := fb, under := #[], cursor := none, curX := 0, curY := 0 }
+      ({ st with sess := some { scr := scr, clients := [], pointerClient := none, failArmed := none } }, ["ok"])
+    | _, _, _ => (st, ["bad-op"])
+  | none, _ => (st, ["bad-op"])
+  | some s, "cursor" :: _ =>
+    match parseCursor s.scr.bpp toks with
+    | some c => ({ st with sess := some (setCursor s c) }, ["ok"])
+    | none => (st, ["bad-op"])
+  | some s, ["draw", x, y, w, h, seed] =>
+    match nat? x, nat? y, nat? w, nat? h, nat? seed with
+    | some x, some y, some w, some h, some seed =>
+      if w < 1 || h < 1 || x + w > s.scr.w || y + h > s.scr.h then (st, ["bad-op"]) else
+      match draw s ⟨x, y, x + w, y + h⟩ (fun px py => pixval s.scr.bpp px py seed) with
+      | some s' => ({ st with sess := some s' }, ["ok"])
+      | none => ({ st with oob := true }, ["model-oob"])
+    | _, _, _, _, _ => (st, ["bad-op"])
+  | some s, ["client", id, kind] =>
+    match nat? id, (if kind = "raw" then some ClientKind.raw else if kind = "x" then some .x else if kind = "rich" then some .rich else none) with
+    | some id, some k =>
+      if id ≥ 4 || st.used.any (fun u => u.1 == id) then (st, ["bad-op"]) else
+      ({ st with sess := some (newClient s id k), used := insertSorted (id, k) st.used }, ["ok"])
+    | _, _ => (st, ["bad-op"])
+  | some s, ["ptr", id, x, y, m] =>
+    match nat? id, nat? x, nat? y, nat? m with
+    | some id, some x, some y, some m =>
+      if !alive s id || x > 65535 || y > 65535 then (st, ["bad-op"]) else
+      let s' := ptrEvent s id x y (m % 256)
+      let pc := match s'.pointerClient with | some p => toString p | none => "-"
+      let mv := st.used.filterMap fun (i, _) =>
+        (s'.clients.find? (fun c => c.id == i)).map fun c => s!"{i}:{if c.wasMoved then 1 else 0}"
+      ({ st with sess := some s' }, [s!"pos={s'.scr.curX},{s'.scr.curY} pc={pc} moved={",".intercalate mv}"])
+    | _, _, _, _ => (st, ["bad-op"])
+  | some s, ["req", id, inc, x, y, w, h] =>
+    match nat? id, nat? inc, nat? x, nat? y, nat? w, nat? h with
+    | some id, some inc, some x, some y, some w, some h =>
+      if !alive s id || w < 1 || h < 1 || x + w > s.scr.w || y + h > s.scr.h then (st, ["bad-op"]) else
+      let full := x == 0 && y == 0 && w == s.scr.w && h == s.scr.h
+      ({ st with sess := some (request s id (inc != 0) ⟨x, y, x + w, y + h⟩),
+                 fullreq := if full && !st.fullreq.contains id then id :: st.fullreq else st.fullreq }, ["ok"])
+    | _, _, _, _, _, _ => (st, ["bad-op"])
+  | some s, ["failnext", id, k] =>
+    match nat? id, nat? k with
+    | some id, some k =>
+      if !alive s id then (st, ["bad-op"]) else
+      ({ st with sess := some { s with failArmed := if k = 0 then some id else none } }, ["ok"])
+    | _, _ => (st, ["bad-op"])
+  | some s, ["pump"] =>
+    match pump v s with
+    | none => ({ st with oob := true }, ["model-oob"])
+    | some (s', obs) =>
+      let lines := st.used.flatMap fun (i, _) =>
+        match obs.find? (fun o => o.id == i) with
+        | some o =>
+          [obsLine s.scr.bpp o] ++ (if o.res && st.fullreq.contains i then [s!"oracle c{i} ok"] else [])
+        | none =>
+          if alive s' i then [s!"c{i} n=0"] ++ (if st.fullreq.contains i then [s!"oracle c{i} ok"] else [])
+          else [s!"c{i} dead"]
+      let fr := st.fullreq.filter fun i => !(obs.any (fun o => o.id == i))
+      ({ st with sess := some s', fullreq := fr }, lines)
+  | _, _ => (st, ["bad-op"])
+
+def main (args : List String) : IO Unit :=
+  let v : Variant := ⟨!args.contains "orig-clip", !args.contains "orig-colour"⟩
+  runDriver ({} : DState) (dstep v)
